@@ -290,7 +290,7 @@ func (ps *parser) expr(minPrec int) Expr {
 
 func (ps *parser) unary() Expr {
 	t := ps.peek()
-	if t.kind == "op" && (t.text == "!" || t.text == "-" || t.text == "^") {
+	if t.kind == "op" && (t.text == "!" || t.text == "-" || t.text == "^" || t.text == "&") {
 		ps.next()
 		return EUn{t.text, ps.unary()}
 	}
